@@ -567,6 +567,9 @@ def parse_execute_list(data: bytes) -> List[str]:
             if s4:
                 s += "+0x{:x}".format(s4)
             ret.append('{} "{}"'.format(inject.name.rstrip("_"), s))
+        elif inject == InjectExecutor.NtQueueApcThread_s:
+            # Cobalt Strike spells this executor with a dash
+            ret.append("NtQueueApcThread-s")
         else:
             ret.append(inject.name)
     return ret
